@@ -93,7 +93,8 @@ class Impl:
         """-> list of dict(rc, msgs=[(line, kind, text)], crash=str|None)"""
         res = [None] * len(sources)
         start = 0
-        env = dict(os.environ, ASAN_OPTIONS="detect_leaks=0:abort_on_error=0", UBSAN_OPTIONS="print_stacktrace=1")
+        env = dict(os.environ, ASAN_OPTIONS="detect_leaks=0:abort_on_error=0", UBSAN_OPTIONS="print_stacktrace=1",
+                   NEVER_PATH="%s:%s" % (os.path.join(VERIF, "corpus", "tc_neg", "modules"), os.path.join(REPO, "sample")))
         while start < len(sources):
             inp = b"".join(b"prog %d %d\n" % (i, len(sources[i].encode())) + sources[i].encode() for i in range(start, len(sources)))
             errf = os.path.join(self.dir, "stderr.txt")
